@@ -73,8 +73,9 @@ impl<M: Meta> TL<'_, M> {
         }
         for f in r["files"].as_array().unwrap() {
             let p = fsutil::path_of(layer_path, &f[0]);
-            std::fs::create_dir_all(p.parent().unwrap()).unwrap();
-            std::fs::write(&p, bytes_of(&f[1])).unwrap();
+            // a failing write inside the callback is the buildpack's own error
+            std::fs::create_dir_all(p.parent().unwrap()).map_err(|_| BpError)?;
+            std::fs::write(&p, bytes_of(&f[1])).map_err(|_| BpError)?;
         }
         let mut progs = HashMap::new();
         for (pi, p) in r["execd"].as_array().unwrap().iter().enumerate() {
@@ -210,6 +211,35 @@ fn handle<M: Meta>(ctx: &BuildContext<TestBp>, name: &LayerName, spec: &Value, s
     (res, c)
 }
 
+/// one operation of a history (handle / corrupt / restore)
+pub fn step(ctx: &BuildContext<TestBp>, layers: &Path, scratch: &Path, names: &[String], opi: usize, op: &Value, probes: &Value) -> Value {
+    match op["op"].as_str().unwrap() {
+        "restore" => {
+            restore(layers, names);
+            json!({"post": abstract_store(layers, names)})
+        }
+        "corrupt" => {
+            let tp = layers.join(format!("{}.toml", string_of(&op["n"])));
+            if op["content"].is_null() {
+                let _ = std::fs::remove_file(&tp);
+            } else {
+                std::fs::write(&tp, bytes_of(&op["content"])).unwrap();
+            }
+            json!({"post": abstract_store(layers, names)})
+        }
+        "handle" => {
+            let name = LayerName::from_str(&string_of(&op["n"])).unwrap();
+            let (res, calls) = if op["layer"]["m"] == "V" {
+                handle::<V>(ctx, &name, &op["layer"], scratch, format!("{opi}"), probes)
+            } else {
+                handle::<GenericMetadata>(ctx, &name, &op["layer"], scratch, format!("{opi}"), probes)
+            };
+            json!({"res": res, "calls": calls, "post": abstract_store(layers, names)})
+        }
+        other => panic!("unknown op {other}"),
+    }
+}
+
 pub fn run(case: &Value) -> Value {
     let root = fsutil::sandbox(&case["id"]);
     let layers = root.join("layers");
@@ -220,31 +250,7 @@ pub fn run(case: &Value) -> Value {
     let ctx = context(&layers);
     let mut steps = vec![];
     for (opi, op) in case["ops"].as_array().unwrap().iter().enumerate() {
-        match op["op"].as_str().unwrap() {
-            "restore" => {
-                restore(&layers, &names);
-                steps.push(json!({"post": abstract_store(&layers, &names)}));
-            }
-            "corrupt" => {
-                let tp = layers.join(format!("{}.toml", string_of(&op["n"])));
-                if op["content"].is_null() {
-                    let _ = std::fs::remove_file(&tp);
-                } else {
-                    std::fs::write(&tp, bytes_of(&op["content"])).unwrap();
-                }
-                steps.push(json!({"post": abstract_store(&layers, &names)}));
-            }
-            "handle" => {
-                let name = LayerName::from_str(&string_of(&op["n"])).unwrap();
-                let (res, calls) = if op["layer"]["m"] == "V" {
-                    handle::<V>(&ctx, &name, &op["layer"], &scratch, format!("{opi}"), &case["probes"])
-                } else {
-                    handle::<GenericMetadata>(&ctx, &name, &op["layer"], &scratch, format!("{opi}"), &case["probes"])
-                };
-                steps.push(json!({"res": res, "calls": calls, "post": abstract_store(&layers, &names)}));
-            }
-            other => panic!("unknown op {other}"),
-        }
+        steps.push(step(&ctx, &layers, &scratch, &names, opi, op, &case["probes"]));
     }
     fsutil::destroy(&root);
     json!({"id": case["id"], "steps": steps})
